@@ -6,14 +6,26 @@ set_option linter.unusedSimpArgs false
 @[simp] theorem bgWt_run (w : Option Nat) (ph : BPh) : bgWt (.run w ph) = bphWt ph := rfl
 @[simp] theorem bgWt_idle : bgWt .idle = 1 := rfl
 @[simp] theorem bgWt_exited : bgWt .exited = 0 := rfl
+@[simp] theorem bgWt_parked : bgWt .parked = 1 := rfl
+@[simp] theorem bgWt_afterCmd (cfg : Cfg) (s : St) (b : Bool) : bgWt (afterCmd cfg s b) = 1 := by
+  rcases afterCmd_cases cfg s b with h | h <;> rw [h] <;> rfl
 
 @[simp] theorem ehWt_noerr : ehWt .noerr = 3 := rfl
 @[simp] theorem ehWt_haserr : ehWt .haserr = 3 := rfl
 @[simp] theorem ehWt_hasperr : ehWt .hasperr = 3 := rfl
 @[simp] theorem ehWt_exited : ehWt .exited = 0 := rfl
+@[simp] theorem ehWt_closing : ehWt .closing = 2 := rfl
+
+theorem ehWt_next (m : CompErr.MCfg) (e : Eh) (k : EK) (h : CompErr.recvs m e = true) :
+    ehWt (CompErr.next m e k) = 3 ∧ ehWt e = 3 := by
+  cases e <;> simp [CompErr.recvs] at h <;> cases k <;> simp [CompErr.next] <;> (repeat' split) <;> simp [ehWt]
+
+theorem ehWt_onClose (m : CompErr.MCfg) (e : Eh) (w : Bool) (h : CompErr.closes m e = true) :
+    ehWt (CompErr.onClose m e w) ≤ 2 ∧ ehWt e = 3 := by
+  cases e <;> simp [CompErr.closes] at h <;> simp [CompErr.onClose] <;> (repeat' split) <;> simp [ehWt]
 
 theorem bphWt_pos (ph : BPh) : 0 < bphWt ph := by
-  cases ph <;> simp [bphWt] <;> (rename_i a b; cases a <;> cases b <;> simp)
+  cases ph <;> simp [bphWt] <;> (try (rename_i a b; cases a <;> cases b <;> simp))
 
 @[simp] theorem bgWt_clearW (x : Bg) (i : Nat) : bgWt (clearW x i) = bgWt x := by
   unfold clearW; split
@@ -42,198 +54,212 @@ theorem step_measure (cfg : Cfg) (s t : St) (h : Step cfg false s t) : measure t
   cases h with
   | startPut _ i hi =>
     have l1 := le_tot wt _ _ _ hi
-    (try simp only [St.setDone, St.setBg]) <;> (repeat' split) <;> simp_all [tot_set_eq _ _ _ _ _ hi, bgWt_run, bgWt_idle, bgWt_exited, ehWt_noerr, ehWt_haserr, ehWt_hasperr, ehWt_exited, wt, ackWt, bphWt, St.bg, onOk, onErr, selNext, afterSetErr] <;> (try omega)
+    (try simp only [St.setDone, St.setBg, ↓reduceIte, Bool.false_eq_true, Bool.and_false, Bool.and_true, Bool.false_and, Bool.true_and]) <;> (repeat' split) <;> simp_all [tot_set_eq _ _ _ _ _ hi, bgWt_run, bgWt_idle, bgWt_exited, bgWt_parked, bgWt_afterCmd, ehWt_noerr, ehWt_haserr, ehWt_hasperr, ehWt_closing, ehWt_exited, wt, ackWt, bphWt, St.bg, onOk, onErr, selNext, afterSetErr] <;> (try omega)
   | startWrite _ i hi =>
     have l1 := le_tot wt _ _ _ hi
-    (try simp only [St.setDone, St.setBg]) <;> (repeat' split) <;> simp_all [tot_set_eq _ _ _ _ _ hi, bgWt_run, bgWt_idle, bgWt_exited, ehWt_noerr, ehWt_haserr, ehWt_hasperr, ehWt_exited, wt, ackWt, bphWt, St.bg, onOk, onErr, selNext, afterSetErr] <;> (try omega)
+    (try simp only [St.setDone, St.setBg, ↓reduceIte, Bool.false_eq_true, Bool.and_false, Bool.and_true, Bool.false_and, Bool.true_and]) <;> (repeat' split) <;> simp_all [tot_set_eq _ _ _ _ _ hi, bgWt_run, bgWt_idle, bgWt_exited, bgWt_parked, bgWt_afterCmd, ehWt_noerr, ehWt_haserr, ehWt_hasperr, ehWt_closing, ehWt_exited, wt, ackWt, bphWt, St.bg, onOk, onErr, selNext, afterSetErr] <;> (try omega)
   | startOtx _ i hi =>
     have l1 := le_tot wt _ _ _ hi
-    (try simp only [St.setDone, St.setBg]) <;> (repeat' split) <;> simp_all [tot_set_eq _ _ _ _ _ hi, bgWt_run, bgWt_idle, bgWt_exited, ehWt_noerr, ehWt_haserr, ehWt_hasperr, ehWt_exited, wt, ackWt, bphWt, St.bg, onOk, onErr, selNext, afterSetErr] <;> (try omega)
+    (try simp only [St.setDone, St.setBg, ↓reduceIte, Bool.false_eq_true, Bool.and_false, Bool.and_true, Bool.false_and, Bool.true_and]) <;> (repeat' split) <;> simp_all [tot_set_eq _ _ _ _ _ hi, bgWt_run, bgWt_idle, bgWt_exited, bgWt_parked, bgWt_afterCmd, ehWt_noerr, ehWt_haserr, ehWt_hasperr, ehWt_closing, ehWt_exited, wt, ackWt, bphWt, St.bg, onOk, onErr, selNext, afterSetErr] <;> (try omega)
   | startCommit _ i hi hu =>
     have l1 := le_tot wt _ _ _ hi
-    (try simp only [St.setDone, St.setBg]) <;> (repeat' split) <;> simp_all [tot_set_eq _ _ _ _ _ hi, bgWt_run, bgWt_idle, bgWt_exited, ehWt_noerr, ehWt_haserr, ehWt_hasperr, ehWt_exited, wt, ackWt, bphWt, St.bg, onOk, onErr, selNext, afterSetErr] <;> (try omega)
+    (try simp only [St.setDone, St.setBg, ↓reduceIte, Bool.false_eq_true, Bool.and_false, Bool.and_true, Bool.false_and, Bool.true_and]) <;> (repeat' split) <;> simp_all [tot_set_eq _ _ _ _ _ hi, bgWt_run, bgWt_idle, bgWt_exited, bgWt_parked, bgWt_afterCmd, ehWt_noerr, ehWt_haserr, ehWt_hasperr, ehWt_closing, ehWt_exited, wt, ackWt, bphWt, St.bg, onOk, onErr, selNext, afterSetErr] <;> (try omega)
   | startDiscard _ i hi hu =>
     have l1 := le_tot wt _ _ _ hi
-    (try simp only [St.setDone, St.setBg]) <;> (repeat' split) <;> simp_all [tot_set_eq _ _ _ _ _ hi, bgWt_run, bgWt_idle, bgWt_exited, ehWt_noerr, ehWt_haserr, ehWt_hasperr, ehWt_exited, wt, ackWt, bphWt, St.bg, onOk, onErr, selNext, afterSetErr] <;> (try omega)
+    (try simp only [St.setDone, St.setBg, ↓reduceIte, Bool.false_eq_true, Bool.and_false, Bool.and_true, Bool.false_and, Bool.true_and]) <;> (repeat' split) <;> simp_all [tot_set_eq _ _ _ _ _ hi, bgWt_run, bgWt_idle, bgWt_exited, bgWt_parked, bgWt_afterCmd, ehWt_noerr, ehWt_haserr, ehWt_hasperr, ehWt_closing, ehWt_exited, wt, ackWt, bphWt, St.bg, onOk, onErr, selNext, afterSetErr] <;> (try omega)
   | startCR _ i hi =>
     have l1 := le_tot wt _ _ _ hi
-    (try simp only [St.setDone, St.setBg]) <;> (repeat' split) <;> simp_all [tot_set_eq _ _ _ _ _ hi, bgWt_run, bgWt_idle, bgWt_exited, ehWt_noerr, ehWt_haserr, ehWt_hasperr, ehWt_exited, wt, ackWt, bphWt, St.bg, onOk, onErr, selNext, afterSetErr] <;> (try omega)
+    (try simp only [St.setDone, St.setBg, ↓reduceIte, Bool.false_eq_true, Bool.and_false, Bool.and_true, Bool.false_and, Bool.true_and]) <;> (repeat' split) <;> simp_all [tot_set_eq _ _ _ _ _ hi, bgWt_run, bgWt_idle, bgWt_exited, bgWt_parked, bgWt_afterCmd, ehWt_noerr, ehWt_haserr, ehWt_hasperr, ehWt_closing, ehWt_exited, wt, ackWt, bphWt, St.bg, onOk, onErr, selNext, afterSetErr] <;> (try omega)
   | startSR _ i hi ha =>
     have l1 := le_tot wt _ _ _ hi
-    (try simp only [St.setDone, St.setBg]) <;> (repeat' split) <;> simp_all [tot_set_eq _ _ _ _ _ hi, bgWt_run, bgWt_idle, bgWt_exited, ehWt_noerr, ehWt_haserr, ehWt_hasperr, ehWt_exited, wt, ackWt, bphWt, St.bg, onOk, onErr, selNext, afterSetErr] <;> (try omega)
+    (try simp only [St.setDone, St.setBg, ↓reduceIte, Bool.false_eq_true, Bool.and_false, Bool.and_true, Bool.false_and, Bool.true_and]) <;> (repeat' split) <;> simp_all [tot_set_eq _ _ _ _ _ hi, bgWt_run, bgWt_idle, bgWt_exited, bgWt_parked, bgWt_afterCmd, ehWt_noerr, ehWt_haserr, ehWt_hasperr, ehWt_closing, ehWt_exited, wt, ackWt, bphWt, St.bg, onOk, onErr, selNext, afterSetErr] <;> (try omega)
   | startClose _ i hi =>
     have l1 := le_tot wt _ _ _ hi
-    (try simp only [St.setDone, St.setBg]) <;> (repeat' split) <;> simp_all [tot_set_eq _ _ _ _ _ hi, bgWt_run, bgWt_idle, bgWt_exited, ehWt_noerr, ehWt_haserr, ehWt_hasperr, ehWt_exited, wt, ackWt, bphWt, St.bg, onOk, onErr, selNext, afterSetErr] <;> (try omega)
+    (try simp only [St.setDone, St.setBg, ↓reduceIte, Bool.false_eq_true, Bool.and_false, Bool.and_true, Bool.false_and, Bool.true_and]) <;> (repeat' split) <;> simp_all [tot_set_eq _ _ _ _ _ hi, bgWt_run, bgWt_idle, bgWt_exited, bgWt_parked, bgWt_afterCmd, ehWt_noerr, ehWt_haserr, ehWt_hasperr, ehWt_closing, ehWt_exited, wt, ackWt, bphWt, St.bg, onOk, onErr, selNext, afterSetErr] <;> (try omega)
   | selTok _ i p q hi hq ht =>
     have l1 := le_tot wt _ _ _ hi
-    cases p <;> simp only [selNext] at hq <;> (try contradiction) <;> cases hq <;> simp_all [tot_set_eq _ _ _ _ _ hi, bgWt_run, bgWt_idle, bgWt_exited, ehWt_noerr, ehWt_haserr, ehWt_hasperr, ehWt_exited, wt, ackWt, bphWt, St.bg, onOk, onErr, selNext, afterSetErr] <;> (try omega)
+    cases p <;> simp only [selNext] at hq <;> (try contradiction) <;> cases hq <;> simp_all [tot_set_eq _ _ _ _ _ hi, bgWt_run, bgWt_idle, bgWt_exited, bgWt_parked, bgWt_afterCmd, ehWt_noerr, ehWt_haserr, ehWt_hasperr, ehWt_closing, ehWt_exited, wt, ackWt, bphWt, St.bg, onOk, onErr, selNext, afterSetErr] <;> (try omega)
   | selPerErr _ i p q hi hq he =>
     have l1 := le_tot wt _ _ _ hi
-    cases p <;> simp only [selNext] at hq <;> (try contradiction) <;> cases hq <;> simp_all [tot_set_eq _ _ _ _ _ hi, bgWt_run, bgWt_idle, bgWt_exited, ehWt_noerr, ehWt_haserr, ehWt_hasperr, ehWt_exited, wt, ackWt, bphWt, St.bg, onOk, onErr, selNext, afterSetErr] <;> (try omega)
+    cases p <;> simp only [selNext] at hq <;> (try contradiction) <;> cases hq <;> simp_all [tot_set_eq _ _ _ _ _ hi, bgWt_run, bgWt_idle, bgWt_exited, bgWt_parked, bgWt_afterCmd, ehWt_noerr, ehWt_haserr, ehWt_hasperr, ehWt_closing, ehWt_exited, wt, ackWt, bphWt, St.bg, onOk, onErr, selNext, afterSetErr] <;> (try omega)
   | selClosed _ i p q hi hq hc =>
     have l1 := le_tot wt _ _ _ hi
-    cases p <;> simp only [selNext] at hq <;> (try contradiction) <;> cases hq <;> simp_all [tot_set_eq _ _ _ _ _ hi, bgWt_run, bgWt_idle, bgWt_exited, ehWt_noerr, ehWt_haserr, ehWt_hasperr, ehWt_exited, wt, ackWt, bphWt, St.bg, onOk, onErr, selNext, afterSetErr] <;> (try omega)
+    cases p <;> simp only [selNext] at hq <;> (try contradiction) <;> cases hq <;> simp_all [tot_set_eq _ _ _ _ _ hi, bgWt_run, bgWt_idle, bgWt_exited, bgWt_parked, bgWt_afterCmd, ehWt_noerr, ehWt_haserr, ehWt_hasperr, ehWt_closing, ehWt_exited, wt, ackWt, bphWt, St.bg, onOk, onErr, selNext, afterSetErr] <;> (try omega)
   | putNoWait _ i hi =>
     have l1 := le_tot wt _ _ _ hi
-    (try simp only [St.setDone, St.setBg]) <;> (repeat' split) <;> simp_all [tot_set_eq _ _ _ _ _ hi, bgWt_run, bgWt_idle, bgWt_exited, ehWt_noerr, ehWt_haserr, ehWt_hasperr, ehWt_exited, wt, ackWt, bphWt, St.bg, onOk, onErr, selNext, afterSetErr] <;> (try omega)
+    (try simp only [St.setDone, St.setBg, ↓reduceIte, Bool.false_eq_true, Bool.and_false, Bool.and_true, Bool.false_and, Bool.true_and]) <;> (repeat' split) <;> simp_all [tot_set_eq _ _ _ _ _ hi, bgWt_run, bgWt_idle, bgWt_exited, bgWt_parked, bgWt_afterCmd, ehWt_noerr, ehWt_haserr, ehWt_hasperr, ehWt_closing, ehWt_exited, wt, ackWt, bphWt, St.bg, onOk, onErr, selNext, afterSetErr] <;> (try omega)
   | putWait _ i b hi =>
     have l1 := le_tot wt _ _ _ hi
-    cases b <;> (try simp only [St.setDone, St.setBg]) <;> (repeat' split) <;> simp_all [tot_set_eq _ _ _ _ _ hi, bgWt_run, bgWt_idle, bgWt_exited, ehWt_noerr, ehWt_haserr, ehWt_hasperr, ehWt_exited, wt, ackWt, bphWt, St.bg, onOk, onErr, selNext, afterSetErr] <;> (try omega)
+    cases b <;> (try simp only [St.setDone, St.setBg, ↓reduceIte, Bool.false_eq_true, Bool.and_false, Bool.and_true, Bool.false_and, Bool.true_and]) <;> (repeat' split) <;> simp_all [tot_set_eq _ _ _ _ _ hi, bgWt_run, bgWt_idle, bgWt_exited, bgWt_parked, bgWt_afterCmd, ehWt_noerr, ehWt_haserr, ehWt_hasperr, ehWt_closing, ehWt_exited, wt, ackWt, bphWt, St.bg, onOk, onErr, selNext, afterSetErr] <;> (try omega)
   | putJournalOk _ i hi =>
     have l1 := le_tot wt _ _ _ hi
-    (try simp only [St.setDone, St.setBg]) <;> (repeat' split) <;> simp_all [tot_set_eq _ _ _ _ _ hi, bgWt_run, bgWt_idle, bgWt_exited, ehWt_noerr, ehWt_haserr, ehWt_hasperr, ehWt_exited, wt, ackWt, bphWt, St.bg, onOk, onErr, selNext, afterSetErr] <;> (try omega)
+    (try simp only [St.setDone, St.setBg, ↓reduceIte, Bool.false_eq_true, Bool.and_false, Bool.and_true, Bool.false_and, Bool.true_and]) <;> (repeat' split) <;> simp_all [tot_set_eq _ _ _ _ _ hi, bgWt_run, bgWt_idle, bgWt_exited, bgWt_parked, bgWt_afterCmd, ehWt_noerr, ehWt_haserr, ehWt_hasperr, ehWt_closing, ehWt_exited, wt, ackWt, bphWt, St.bg, onOk, onErr, selNext, afterSetErr] <;> (try omega)
   | putUnlock _ i r hi =>
     have l1 := le_tot wt _ _ _ hi
-    cases r <;> (try simp only [St.setDone, St.setBg]) <;> (repeat' split) <;> simp_all [tot_set_eq _ _ _ _ _ hi, bgWt_run, bgWt_idle, bgWt_exited, ehWt_noerr, ehWt_haserr, ehWt_hasperr, ehWt_exited, wt, ackWt, bphWt, St.bg, onOk, onErr, selNext, afterSetErr] <;> (try omega)
-  | cwSendGo _ i b site lg hi hb =>
+    cases r <;> (try simp only [St.setDone, St.setBg, ↓reduceIte, Bool.false_eq_true, Bool.and_false, Bool.and_true, Bool.false_and, Bool.true_and]) <;> (repeat' split) <;> simp_all [tot_set_eq _ _ _ _ _ hi, bgWt_run, bgWt_idle, bgWt_exited, bgWt_parked, bgWt_afterCmd, ehWt_noerr, ehWt_haserr, ehWt_hasperr, ehWt_closing, ehWt_exited, wt, ackWt, bphWt, St.bg, onOk, onErr, selNext, afterSetErr] <;> (try omega)
+  | cwSendGo _ i b site lg hi hb hro =>
     have l1 := le_tot wt _ _ _ hi
     have l2 := wt_onErr_lt site lg
-    cases b <;> (try simp only [St.setDone, St.setBg]) <;> simp_all [tot_set_eq _ _ _ _ _ hi, bgWt_run, bgWt_idle, bgWt_exited, bgWt_clearW, wt, bphWt, St.bg] <;> (try omega)
+    cases b <;> (try simp only [St.setDone, St.setBg]) <;> (repeat' split) <;> simp_all [tot_set_eq _ _ _ _ _ hi, bgWt_run, bgWt_idle, bgWt_exited, bgWt_parked, bgWt_clearW, wt, bphWt, St.bg] <;> (try omega)
+  | cwSendRO _ i site lg hi hb hp hro =>
+    have l1 := le_tot wt _ _ _ hi
+    have l2 := wt_onErr_lt site lg
+    (repeat' split) <;> simp_all [tot_set_eq _ _ _ _ _ hi, bgWt_run, bgWt_idle, bgWt_exited, bgWt_parked, bgWt_clearW, wt, bphWt, St.bg] <;> (try omega)
   | cwSendErr _ i b site lg hi he =>
     have l1 := le_tot wt _ _ _ hi
     have l2 := wt_onErr_lt site lg
-    cases b <;> (try simp only [St.setDone, St.setBg]) <;> simp_all [tot_set_eq _ _ _ _ _ hi, bgWt_run, bgWt_idle, bgWt_exited, bgWt_clearW, wt, bphWt, St.bg] <;> (try omega)
+    cases b <;> (try simp only [St.setDone, St.setBg]) <;> (repeat' split) <;> simp_all [tot_set_eq _ _ _ _ _ hi, bgWt_run, bgWt_idle, bgWt_exited, bgWt_parked, bgWt_clearW, wt, bphWt, St.bg] <;> (try omega)
   | cwAckErr _ i b site lg hi he =>
     have l1 := le_tot wt _ _ _ hi
     have l2 := wt_onErr_lt site lg
-    cases b <;> (try simp only [St.setDone, St.setBg]) <;> simp_all [tot_set_eq _ _ _ _ _ hi, bgWt_run, bgWt_idle, bgWt_exited, bgWt_clearW, wt, bphWt, St.bg] <;> (try omega)
+    cases b <;> (try simp only [St.setDone, St.setBg]) <;> (repeat' split) <;> simp_all [tot_set_eq _ _ _ _ _ hi, bgWt_run, bgWt_idle, bgWt_exited, bgWt_parked, bgWt_clearW, wt, bphWt, St.bg] <;> (try omega)
   | otxRotate _ i lg hi =>
     have l1 := le_tot wt _ _ _ hi
-    cases lg <;> (try simp only [St.setDone, St.setBg]) <;> (repeat' split) <;> simp_all [tot_set_eq _ _ _ _ _ hi, bgWt_run, bgWt_idle, bgWt_exited, ehWt_noerr, ehWt_haserr, ehWt_hasperr, ehWt_exited, wt, ackWt, bphWt, St.bg, onOk, onErr, selNext, afterSetErr] <;> (try omega)
+    cases lg <;> (try simp only [St.setDone, St.setBg, ↓reduceIte, Bool.false_eq_true, Bool.and_false, Bool.and_true, Bool.false_and, Bool.true_and]) <;> (repeat' split) <;> simp_all [tot_set_eq _ _ _ _ _ hi, bgWt_run, bgWt_idle, bgWt_exited, bgWt_parked, bgWt_afterCmd, ehWt_noerr, ehWt_haserr, ehWt_hasperr, ehWt_closing, ehWt_exited, wt, ackWt, bphWt, St.bg, onOk, onErr, selNext, afterSetErr] <;> (try omega)
   | otxNoRotate _ i lg hi =>
     have l1 := le_tot wt _ _ _ hi
-    cases lg <;> (try simp only [St.setDone, St.setBg]) <;> (repeat' split) <;> simp_all [tot_set_eq _ _ _ _ _ hi, bgWt_run, bgWt_idle, bgWt_exited, ehWt_noerr, ehWt_haserr, ehWt_hasperr, ehWt_exited, wt, ackWt, bphWt, St.bg, onOk, onErr, selNext, afterSetErr] <;> (try omega)
+    cases lg <;> (try simp only [St.setDone, St.setBg, ↓reduceIte, Bool.false_eq_true, Bool.and_false, Bool.and_true, Bool.false_and, Bool.true_and]) <;> (repeat' split) <;> simp_all [tot_set_eq _ _ _ _ _ hi, bgWt_run, bgWt_idle, bgWt_exited, bgWt_parked, bgWt_afterCmd, ehWt_noerr, ehWt_haserr, ehWt_hasperr, ehWt_closing, ehWt_exited, wt, ackWt, bphWt, St.bg, onOk, onErr, selNext, afterSetErr] <;> (try omega)
   | otxNewMemOk _ i lg hi =>
     have l1 := le_tot wt _ _ _ hi
-    cases lg <;> (try simp only [St.setDone, St.setBg]) <;> (repeat' split) <;> simp_all [tot_set_eq _ _ _ _ _ hi, bgWt_run, bgWt_idle, bgWt_exited, ehWt_noerr, ehWt_haserr, ehWt_hasperr, ehWt_exited, wt, ackWt, bphWt, St.bg, onOk, onErr, selNext, afterSetErr] <;> (try omega)
+    cases lg <;> (try simp only [St.setDone, St.setBg, ↓reduceIte, Bool.false_eq_true, Bool.and_false, Bool.and_true, Bool.false_and, Bool.true_and]) <;> (repeat' split) <;> simp_all [tot_set_eq _ _ _ _ _ hi, bgWt_run, bgWt_idle, bgWt_exited, bgWt_parked, bgWt_afterCmd, ehWt_noerr, ehWt_haserr, ehWt_hasperr, ehWt_closing, ehWt_exited, wt, ackWt, bphWt, St.bg, onOk, onErr, selNext, afterSetErr] <;> (try omega)
   | otxNoWaitComp _ i lg hi =>
     have l1 := le_tot wt _ _ _ hi
-    cases lg <;> (try simp only [St.setDone, St.setBg]) <;> (repeat' split) <;> simp_all [tot_set_eq _ _ _ _ _ hi, bgWt_run, bgWt_idle, bgWt_exited, ehWt_noerr, ehWt_haserr, ehWt_hasperr, ehWt_exited, wt, ackWt, bphWt, St.bg, onOk, onErr, selNext, afterSetErr] <;> (try omega)
+    cases lg <;> (try simp only [St.setDone, St.setBg, ↓reduceIte, Bool.false_eq_true, Bool.and_false, Bool.and_true, Bool.false_and, Bool.true_and]) <;> (repeat' split) <;> simp_all [tot_set_eq _ _ _ _ _ hi, bgWt_run, bgWt_idle, bgWt_exited, bgWt_parked, bgWt_afterCmd, ehWt_noerr, ehWt_haserr, ehWt_hasperr, ehWt_closing, ehWt_exited, wt, ackWt, bphWt, St.bg, onOk, onErr, selNext, afterSetErr] <;> (try omega)
   | otxWaitComp _ i lg hi =>
     have l1 := le_tot wt _ _ _ hi
-    cases lg <;> (try simp only [St.setDone, St.setBg]) <;> (repeat' split) <;> simp_all [tot_set_eq _ _ _ _ _ hi, bgWt_run, bgWt_idle, bgWt_exited, ehWt_noerr, ehWt_haserr, ehWt_hasperr, ehWt_exited, wt, ackWt, bphWt, St.bg, onOk, onErr, selNext, afterSetErr] <;> (try omega)
+    cases lg <;> (try simp only [St.setDone, St.setBg, ↓reduceIte, Bool.false_eq_true, Bool.and_false, Bool.and_true, Bool.false_and, Bool.true_and]) <;> (repeat' split) <;> simp_all [tot_set_eq _ _ _ _ _ hi, bgWt_run, bgWt_idle, bgWt_exited, bgWt_parked, bgWt_afterCmd, ehWt_noerr, ehWt_haserr, ehWt_hasperr, ehWt_closing, ehWt_exited, wt, ackWt, bphWt, St.bg, onOk, onErr, selNext, afterSetErr] <;> (try omega)
   | otxFail _ i lg hi =>
     have l1 := le_tot wt _ _ _ hi
-    cases lg <;> (try simp only [St.setDone, St.setBg]) <;> (repeat' split) <;> simp_all [tot_set_eq _ _ _ _ _ hi, bgWt_run, bgWt_idle, bgWt_exited, ehWt_noerr, ehWt_haserr, ehWt_hasperr, ehWt_exited, wt, ackWt, bphWt, St.bg, onOk, onErr, selNext, afterSetErr] <;> (try omega)
+    cases lg <;> (try simp only [St.setDone, St.setBg, ↓reduceIte, Bool.false_eq_true, Bool.and_false, Bool.and_true, Bool.false_and, Bool.true_and]) <;> (repeat' split) <;> simp_all [tot_set_eq _ _ _ _ _ hi, bgWt_run, bgWt_idle, bgWt_exited, bgWt_parked, bgWt_afterCmd, ehWt_noerr, ehWt_haserr, ehWt_hasperr, ehWt_closing, ehWt_exited, wt, ackWt, bphWt, St.bg, onOk, onErr, selNext, afterSetErr] <;> (try omega)
   | otxRel _ i lg hi =>
     have l1 := le_tot wt _ _ _ hi
-    cases lg <;> (try simp only [St.setDone, St.setBg]) <;> (repeat' split) <;> simp_all [tot_set_eq _ _ _ _ _ hi, bgWt_run, bgWt_idle, bgWt_exited, ehWt_noerr, ehWt_haserr, ehWt_hasperr, ehWt_exited, wt, ackWt, bphWt, St.bg, onOk, onErr, selNext, afterSetErr] <;> (try omega)
+    cases lg <;> (try simp only [St.setDone, St.setBg, ↓reduceIte, Bool.false_eq_true, Bool.and_false, Bool.and_true, Bool.false_and, Bool.true_and]) <;> (repeat' split) <;> simp_all [tot_set_eq _ _ _ _ _ hi, bgWt_run, bgWt_idle, bgWt_exited, bgWt_parked, bgWt_afterCmd, ehWt_noerr, ehWt_haserr, ehWt_hasperr, ehWt_closing, ehWt_exited, wt, ackWt, bphWt, St.bg, onOk, onErr, selNext, afterSetErr] <;> (try omega)
   | otxDone _ i lg hi =>
     have l1 := le_tot wt _ _ _ hi
-    cases lg <;> (try simp only [St.setDone, St.setBg]) <;> (repeat' split) <;> simp_all [tot_set_eq _ _ _ _ _ hi, bgWt_run, bgWt_idle, bgWt_exited, ehWt_noerr, ehWt_haserr, ehWt_hasperr, ehWt_exited, wt, ackWt, bphWt, St.bg, onOk, onErr, selNext, afterSetErr] <;> (try omega)
+    cases lg <;> (try simp only [St.setDone, St.setBg, ↓reduceIte, Bool.false_eq_true, Bool.and_false, Bool.and_true, Bool.false_and, Bool.true_and]) <;> (repeat' split) <;> simp_all [tot_set_eq _ _ _ _ _ hi, bgWt_run, bgWt_idle, bgWt_exited, bgWt_parked, bgWt_afterCmd, ehWt_noerr, ehWt_haserr, ehWt_hasperr, ehWt_closing, ehWt_exited, wt, ackWt, bphWt, St.bg, onOk, onErr, selNext, afterSetErr] <;> (try omega)
   | lgWriteOk _ i hi =>
     have l1 := le_tot wt _ _ _ hi
-    (try simp only [St.setDone, St.setBg]) <;> (repeat' split) <;> simp_all [tot_set_eq _ _ _ _ _ hi, bgWt_run, bgWt_idle, bgWt_exited, ehWt_noerr, ehWt_haserr, ehWt_hasperr, ehWt_exited, wt, ackWt, bphWt, St.bg, onOk, onErr, selNext, afterSetErr] <;> (try omega)
+    (try simp only [St.setDone, St.setBg, ↓reduceIte, Bool.false_eq_true, Bool.and_false, Bool.and_true, Bool.false_and, Bool.true_and]) <;> (repeat' split) <;> simp_all [tot_set_eq _ _ _ _ _ hi, bgWt_run, bgWt_idle, bgWt_exited, bgWt_parked, bgWt_afterCmd, ehWt_noerr, ehWt_haserr, ehWt_hasperr, ehWt_closing, ehWt_exited, wt, ackWt, bphWt, St.bg, onOk, onErr, selNext, afterSetErr] <;> (try omega)
   | cmLockTr _ i lg hi hl =>
     have l1 := le_tot wt _ _ _ hi
-    cases lg <;> (try simp only [St.setDone, St.setBg]) <;> (repeat' split) <;> simp_all [tot_set_eq _ _ _ _ _ hi, bgWt_run, bgWt_idle, bgWt_exited, ehWt_noerr, ehWt_haserr, ehWt_hasperr, ehWt_exited, wt, ackWt, bphWt, St.bg, onOk, onErr, selNext, afterSetErr] <;> (try omega)
+    cases lg <;> (try simp only [St.setDone, St.setBg, ↓reduceIte, Bool.false_eq_true, Bool.and_false, Bool.and_true, Bool.false_and, Bool.true_and]) <;> (repeat' split) <;> simp_all [tot_set_eq _ _ _ _ _ hi, bgWt_run, bgWt_idle, bgWt_exited, bgWt_parked, bgWt_afterCmd, ehWt_noerr, ehWt_haserr, ehWt_hasperr, ehWt_closing, ehWt_exited, wt, ackWt, bphWt, St.bg, onOk, onErr, selNext, afterSetErr] <;> (try omega)
   | cmFlushOk _ i lg hi =>
     have l1 := le_tot wt _ _ _ hi
-    cases lg <;> (try simp only [St.setDone, St.setBg]) <;> (repeat' split) <;> simp_all [tot_set_eq _ _ _ _ _ hi, bgWt_run, bgWt_idle, bgWt_exited, ehWt_noerr, ehWt_haserr, ehWt_hasperr, ehWt_exited, wt, ackWt, bphWt, St.bg, onOk, onErr, selNext, afterSetErr] <;> (try omega)
+    cases lg <;> (try simp only [St.setDone, St.setBg, ↓reduceIte, Bool.false_eq_true, Bool.and_false, Bool.and_true, Bool.false_and, Bool.true_and]) <;> (repeat' split) <;> simp_all [tot_set_eq _ _ _ _ _ hi, bgWt_run, bgWt_idle, bgWt_exited, bgWt_parked, bgWt_afterCmd, ehWt_noerr, ehWt_haserr, ehWt_hasperr, ehWt_closing, ehWt_exited, wt, ackWt, bphWt, St.bg, onOk, onErr, selNext, afterSetErr] <;> (try omega)
   | cmFlushEmpty _ i lg hi =>
     have l1 := le_tot wt _ _ _ hi
-    cases lg <;> (try simp only [St.setDone, St.setBg]) <;> (repeat' split) <;> simp_all [tot_set_eq _ _ _ _ _ hi, bgWt_run, bgWt_idle, bgWt_exited, ehWt_noerr, ehWt_haserr, ehWt_hasperr, ehWt_exited, wt, ackWt, bphWt, St.bg, onOk, onErr, selNext, afterSetErr] <;> (try omega)
+    cases lg <;> (try simp only [St.setDone, St.setBg, ↓reduceIte, Bool.false_eq_true, Bool.and_false, Bool.and_true, Bool.false_and, Bool.true_and]) <;> (repeat' split) <;> simp_all [tot_set_eq _ _ _ _ _ hi, bgWt_run, bgWt_idle, bgWt_exited, bgWt_parked, bgWt_afterCmd, ehWt_noerr, ehWt_haserr, ehWt_hasperr, ehWt_closing, ehWt_exited, wt, ackWt, bphWt, St.bg, onOk, onErr, selNext, afterSetErr] <;> (try omega)
   | cmLockClk _ i lg hi hl =>
     have l1 := le_tot wt _ _ _ hi
-    cases lg <;> (try simp only [St.setDone, St.setBg]) <;> (repeat' split) <;> simp_all [tot_set_eq _ _ _ _ _ hi, bgWt_run, bgWt_idle, bgWt_exited, ehWt_noerr, ehWt_haserr, ehWt_hasperr, ehWt_exited, wt, ackWt, bphWt, St.bg, onOk, onErr, selNext, afterSetErr] <;> (try omega)
+    cases lg <;> (try simp only [St.setDone, St.setBg, ↓reduceIte, Bool.false_eq_true, Bool.and_false, Bool.and_true, Bool.false_and, Bool.true_and]) <;> (repeat' split) <;> simp_all [tot_set_eq _ _ _ _ _ hi, bgWt_run, bgWt_idle, bgWt_exited, bgWt_parked, bgWt_afterCmd, ehWt_noerr, ehWt_haserr, ehWt_hasperr, ehWt_closing, ehWt_exited, wt, ackWt, bphWt, St.bg, onOk, onErr, selNext, afterSetErr] <;> (try omega)
   | cmTryOk _ i k lg hi =>
     have l1 := le_tot wt _ _ _ hi
-    cases lg <;> (try simp only [St.setDone, St.setBg]) <;> (repeat' split) <;> simp_all [tot_set_eq _ _ _ _ _ hi, bgWt_run, bgWt_idle, bgWt_exited, ehWt_noerr, ehWt_haserr, ehWt_hasperr, ehWt_exited, wt, ackWt, bphWt, St.bg, onOk, onErr, selNext, afterSetErr] <;> (try omega)
+    cases lg <;> (try simp only [St.setDone, St.setBg, ↓reduceIte, Bool.false_eq_true, Bool.and_false, Bool.and_true, Bool.false_and, Bool.true_and]) <;> (repeat' split) <;> simp_all [tot_set_eq _ _ _ _ _ hi, bgWt_run, bgWt_idle, bgWt_exited, bgWt_parked, bgWt_afterCmd, ehWt_noerr, ehWt_haserr, ehWt_hasperr, ehWt_closing, ehWt_exited, wt, ackWt, bphWt, St.bg, onOk, onErr, selNext, afterSetErr] <;> (try omega)
   | cmSleepTimer _ i k lg hi =>
     have l1 := le_tot wt _ _ _ hi
-    cases lg <;> (try simp only [St.setDone, St.setBg]) <;> (repeat' split) <;> simp_all [tot_set_eq _ _ _ _ _ hi, bgWt_run, bgWt_idle, bgWt_exited, ehWt_noerr, ehWt_haserr, ehWt_hasperr, ehWt_exited, wt, ackWt, bphWt, St.bg, onOk, onErr, selNext, afterSetErr] <;> (try omega)
+    cases lg <;> (try simp only [St.setDone, St.setBg, ↓reduceIte, Bool.false_eq_true, Bool.and_false, Bool.and_true, Bool.false_and, Bool.true_and]) <;> (repeat' split) <;> simp_all [tot_set_eq _ _ _ _ _ hi, bgWt_run, bgWt_idle, bgWt_exited, bgWt_parked, bgWt_afterCmd, ehWt_noerr, ehWt_haserr, ehWt_hasperr, ehWt_closing, ehWt_exited, wt, ackWt, bphWt, St.bg, onOk, onErr, selNext, afterSetErr] <;> (try omega)
   | cmSleepClosed _ i k lg hi hc =>
     have l1 := le_tot wt _ _ _ hi
-    cases lg <;> (try simp only [St.setDone, St.setBg]) <;> (repeat' split) <;> simp_all [tot_set_eq _ _ _ _ _ hi, bgWt_run, bgWt_idle, bgWt_exited, ehWt_noerr, ehWt_haserr, ehWt_hasperr, ehWt_exited, wt, ackWt, bphWt, St.bg, onOk, onErr, selNext, afterSetErr] <;> (try omega)
+    cases lg <;> (try simp only [St.setDone, St.setBg, ↓reduceIte, Bool.false_eq_true, Bool.and_false, Bool.and_true, Bool.false_and, Bool.true_and]) <;> (repeat' split) <;> simp_all [tot_set_eq _ _ _ _ _ hi, bgWt_run, bgWt_idle, bgWt_exited, bgWt_parked, bgWt_afterCmd, ehWt_noerr, ehWt_haserr, ehWt_hasperr, ehWt_closing, ehWt_exited, wt, ackWt, bphWt, St.bg, onOk, onErr, selNext, afterSetErr] <;> (try omega)
   | cmFail3 _ i lg hi =>
     have l1 := le_tot wt _ _ _ hi
-    cases lg <;> (try simp only [St.setDone, St.setBg]) <;> (repeat' split) <;> simp_all [tot_set_eq _ _ _ _ _ hi, bgWt_run, bgWt_idle, bgWt_exited, ehWt_noerr, ehWt_haserr, ehWt_hasperr, ehWt_exited, wt, ackWt, bphWt, St.bg, onOk, onErr, selNext, afterSetErr] <;> (try omega)
+    cases lg <;> (try simp only [St.setDone, St.setBg, ↓reduceIte, Bool.false_eq_true, Bool.and_false, Bool.and_true, Bool.false_and, Bool.true_and]) <;> (repeat' split) <;> simp_all [tot_set_eq _ _ _ _ _ hi, bgWt_run, bgWt_idle, bgWt_exited, bgWt_parked, bgWt_afterCmd, ehWt_noerr, ehWt_haserr, ehWt_hasperr, ehWt_closing, ehWt_exited, wt, ackWt, bphWt, St.bg, onOk, onErr, selNext, afterSetErr] <;> (try omega)
   | cmAfterOk _ i lg hi =>
     have l1 := le_tot wt _ _ _ hi
-    cases lg <;> (try simp only [St.setDone, St.setBg]) <;> (repeat' split) <;> simp_all [tot_set_eq _ _ _ _ _ hi, bgWt_run, bgWt_idle, bgWt_exited, ehWt_noerr, ehWt_haserr, ehWt_hasperr, ehWt_exited, wt, ackWt, bphWt, St.bg, onOk, onErr, selNext, afterSetErr] <;> (try omega)
+    cases lg <;> (try simp only [St.setDone, St.setBg, ↓reduceIte, Bool.false_eq_true, Bool.and_false, Bool.and_true, Bool.false_and, Bool.true_and]) <;> (repeat' split) <;> simp_all [tot_set_eq _ _ _ _ _ hi, bgWt_run, bgWt_idle, bgWt_exited, bgWt_parked, bgWt_afterCmd, ehWt_noerr, ehWt_haserr, ehWt_hasperr, ehWt_closing, ehWt_exited, wt, ackWt, bphWt, St.bg, onOk, onErr, selNext, afterSetErr] <;> (try omega)
   | cmNoWaitComp _ i lg hi =>
     have l1 := le_tot wt _ _ _ hi
-    cases lg <;> (try simp only [St.setDone, St.setBg]) <;> (repeat' split) <;> simp_all [tot_set_eq _ _ _ _ _ hi, bgWt_run, bgWt_idle, bgWt_exited, ehWt_noerr, ehWt_haserr, ehWt_hasperr, ehWt_exited, wt, ackWt, bphWt, St.bg, onOk, onErr, selNext, afterSetErr] <;> (try omega)
+    cases lg <;> (try simp only [St.setDone, St.setBg, ↓reduceIte, Bool.false_eq_true, Bool.and_false, Bool.and_true, Bool.false_and, Bool.true_and]) <;> (repeat' split) <;> simp_all [tot_set_eq _ _ _ _ _ hi, bgWt_run, bgWt_idle, bgWt_exited, bgWt_parked, bgWt_afterCmd, ehWt_noerr, ehWt_haserr, ehWt_hasperr, ehWt_closing, ehWt_exited, wt, ackWt, bphWt, St.bg, onOk, onErr, selNext, afterSetErr] <;> (try omega)
   | cmWaitComp _ i lg hi =>
     have l1 := le_tot wt _ _ _ hi
-    cases lg <;> (try simp only [St.setDone, St.setBg]) <;> (repeat' split) <;> simp_all [tot_set_eq _ _ _ _ _ hi, bgWt_run, bgWt_idle, bgWt_exited, ehWt_noerr, ehWt_haserr, ehWt_hasperr, ehWt_exited, wt, ackWt, bphWt, St.bg, onOk, onErr, selNext, afterSetErr] <;> (try omega)
+    cases lg <;> (try simp only [St.setDone, St.setBg, ↓reduceIte, Bool.false_eq_true, Bool.and_false, Bool.and_true, Bool.false_and, Bool.true_and]) <;> (repeat' split) <;> simp_all [tot_set_eq _ _ _ _ _ hi, bgWt_run, bgWt_idle, bgWt_exited, bgWt_parked, bgWt_afterCmd, ehWt_noerr, ehWt_haserr, ehWt_hasperr, ehWt_closing, ehWt_exited, wt, ackWt, bphWt, St.bg, onOk, onErr, selNext, afterSetErr] <;> (try omega)
   | cmDone _ i lg hi =>
     have l1 := le_tot wt _ _ _ hi
-    cases lg <;> (try simp only [St.setDone, St.setBg]) <;> (repeat' split) <;> simp_all [tot_set_eq _ _ _ _ _ hi, bgWt_run, bgWt_idle, bgWt_exited, ehWt_noerr, ehWt_haserr, ehWt_hasperr, ehWt_exited, wt, ackWt, bphWt, St.bg, onOk, onErr, selNext, afterSetErr] <;> (try omega)
+    cases lg <;> (try simp only [St.setDone, St.setBg, ↓reduceIte, Bool.false_eq_true, Bool.and_false, Bool.and_true, Bool.false_and, Bool.true_and]) <;> (repeat' split) <;> simp_all [tot_set_eq _ _ _ _ _ hi, bgWt_run, bgWt_idle, bgWt_exited, bgWt_parked, bgWt_afterCmd, ehWt_noerr, ehWt_haserr, ehWt_hasperr, ehWt_closing, ehWt_exited, wt, ackWt, bphWt, St.bg, onOk, onErr, selNext, afterSetErr] <;> (try omega)
   | cmRet _ i ok lg hi =>
     have l1 := le_tot wt _ _ _ hi
-    cases ok <;> cases lg <;> (try simp only [St.setDone, St.setBg]) <;> (repeat' split) <;> simp_all [tot_set_eq _ _ _ _ _ hi, bgWt_run, bgWt_idle, bgWt_exited, ehWt_noerr, ehWt_haserr, ehWt_hasperr, ehWt_exited, wt, ackWt, bphWt, St.bg, onOk, onErr, selNext, afterSetErr] <;> (try omega)
+    cases ok <;> cases lg <;> (try simp only [St.setDone, St.setBg, ↓reduceIte, Bool.false_eq_true, Bool.and_false, Bool.and_true, Bool.false_and, Bool.true_and]) <;> (repeat' split) <;> simp_all [tot_set_eq _ _ _ _ _ hi, bgWt_run, bgWt_idle, bgWt_exited, bgWt_parked, bgWt_afterCmd, ehWt_noerr, ehWt_haserr, ehWt_hasperr, ehWt_closing, ehWt_exited, wt, ackWt, bphWt, St.bg, onOk, onErr, selNext, afterSetErr] <;> (try omega)
   | dcLockTr _ i lg hi hl =>
     have l1 := le_tot wt _ _ _ hi
-    cases lg <;> (try simp only [St.setDone, St.setBg]) <;> (repeat' split) <;> simp_all [tot_set_eq _ _ _ _ _ hi, bgWt_run, bgWt_idle, bgWt_exited, ehWt_noerr, ehWt_haserr, ehWt_hasperr, ehWt_exited, wt, ackWt, bphWt, St.bg, onOk, onErr, selNext, afterSetErr] <;> (try omega)
+    cases lg <;> (try simp only [St.setDone, St.setBg, ↓reduceIte, Bool.false_eq_true, Bool.and_false, Bool.and_true, Bool.false_and, Bool.true_and]) <;> (repeat' split) <;> simp_all [tot_set_eq _ _ _ _ _ hi, bgWt_run, bgWt_idle, bgWt_exited, bgWt_parked, bgWt_afterCmd, ehWt_noerr, ehWt_haserr, ehWt_hasperr, ehWt_closing, ehWt_exited, wt, ackWt, bphWt, St.bg, onOk, onErr, selNext, afterSetErr] <;> (try omega)
   | dcBody _ i lg hi =>
     have l1 := le_tot wt _ _ _ hi
-    cases lg <;> (try simp only [St.setDone, St.setBg]) <;> (repeat' split) <;> simp_all [tot_set_eq _ _ _ _ _ hi, bgWt_run, bgWt_idle, bgWt_exited, ehWt_noerr, ehWt_haserr, ehWt_hasperr, ehWt_exited, wt, ackWt, bphWt, St.bg, onOk, onErr, selNext, afterSetErr] <;> (try omega)
+    cases lg <;> (try simp only [St.setDone, St.setBg, ↓reduceIte, Bool.false_eq_true, Bool.and_false, Bool.and_true, Bool.false_and, Bool.true_and]) <;> (repeat' split) <;> simp_all [tot_set_eq _ _ _ _ _ hi, bgWt_run, bgWt_idle, bgWt_exited, bgWt_parked, bgWt_afterCmd, ehWt_noerr, ehWt_haserr, ehWt_hasperr, ehWt_closing, ehWt_exited, wt, ackWt, bphWt, St.bg, onOk, onErr, selNext, afterSetErr] <;> (try omega)
   | crNoOverlap _ i hi =>
     have l1 := le_tot wt _ _ _ hi
-    (try simp only [St.setDone, St.setBg]) <;> (repeat' split) <;> simp_all [tot_set_eq _ _ _ _ _ hi, bgWt_run, bgWt_idle, bgWt_exited, ehWt_noerr, ehWt_haserr, ehWt_hasperr, ehWt_exited, wt, ackWt, bphWt, St.bg, onOk, onErr, selNext, afterSetErr] <;> (try omega)
+    (try simp only [St.setDone, St.setBg, ↓reduceIte, Bool.false_eq_true, Bool.and_false, Bool.and_true, Bool.false_and, Bool.true_and]) <;> (repeat' split) <;> simp_all [tot_set_eq _ _ _ _ _ hi, bgWt_run, bgWt_idle, bgWt_exited, bgWt_parked, bgWt_afterCmd, ehWt_noerr, ehWt_haserr, ehWt_hasperr, ehWt_closing, ehWt_exited, wt, ackWt, bphWt, St.bg, onOk, onErr, selNext, afterSetErr] <;> (try omega)
   | crOverlap _ i hi =>
     have l1 := le_tot wt _ _ _ hi
-    (try simp only [St.setDone, St.setBg]) <;> (repeat' split) <;> simp_all [tot_set_eq _ _ _ _ _ hi, bgWt_run, bgWt_idle, bgWt_exited, ehWt_noerr, ehWt_haserr, ehWt_hasperr, ehWt_exited, wt, ackWt, bphWt, St.bg, onOk, onErr, selNext, afterSetErr] <;> (try omega)
+    (try simp only [St.setDone, St.setBg, ↓reduceIte, Bool.false_eq_true, Bool.and_false, Bool.and_true, Bool.false_and, Bool.true_and]) <;> (repeat' split) <;> simp_all [tot_set_eq _ _ _ _ _ hi, bgWt_run, bgWt_idle, bgWt_exited, bgWt_parked, bgWt_afterCmd, ehWt_noerr, ehWt_haserr, ehWt_hasperr, ehWt_closing, ehWt_exited, wt, ackWt, bphWt, St.bg, onOk, onErr, selNext, afterSetErr] <;> (try omega)
   | crNewMemOk _ i hi =>
     have l1 := le_tot wt _ _ _ hi
-    (try simp only [St.setDone, St.setBg]) <;> (repeat' split) <;> simp_all [tot_set_eq _ _ _ _ _ hi, bgWt_run, bgWt_idle, bgWt_exited, ehWt_noerr, ehWt_haserr, ehWt_hasperr, ehWt_exited, wt, ackWt, bphWt, St.bg, onOk, onErr, selNext, afterSetErr] <;> (try omega)
+    (try simp only [St.setDone, St.setBg, ↓reduceIte, Bool.false_eq_true, Bool.and_false, Bool.and_true, Bool.false_and, Bool.true_and]) <;> (repeat' split) <;> simp_all [tot_set_eq _ _ _ _ _ hi, bgWt_run, bgWt_idle, bgWt_exited, bgWt_parked, bgWt_afterCmd, ehWt_noerr, ehWt_haserr, ehWt_hasperr, ehWt_closing, ehWt_exited, wt, ackWt, bphWt, St.bg, onOk, onErr, selNext, afterSetErr] <;> (try omega)
   | crRelM _ i hi =>
     have l1 := le_tot wt _ _ _ hi
-    (try simp only [St.setDone, St.setBg]) <;> (repeat' split) <;> simp_all [tot_set_eq _ _ _ _ _ hi, bgWt_run, bgWt_idle, bgWt_exited, ehWt_noerr, ehWt_haserr, ehWt_hasperr, ehWt_exited, wt, ackWt, bphWt, St.bg, onOk, onErr, selNext, afterSetErr] <;> (try omega)
+    (try simp only [St.setDone, St.setBg, ↓reduceIte, Bool.false_eq_true, Bool.and_false, Bool.and_true, Bool.false_and, Bool.true_and]) <;> (repeat' split) <;> simp_all [tot_set_eq _ _ _ _ _ hi, bgWt_run, bgWt_idle, bgWt_exited, bgWt_parked, bgWt_afterCmd, ehWt_noerr, ehWt_haserr, ehWt_hasperr, ehWt_closing, ehWt_exited, wt, ackWt, bphWt, St.bg, onOk, onErr, selNext, afterSetErr] <;> (try omega)
   | crRelOk _ i hi =>
     have l1 := le_tot wt _ _ _ hi
-    (try simp only [St.setDone, St.setBg]) <;> (repeat' split) <;> simp_all [tot_set_eq _ _ _ _ _ hi, bgWt_run, bgWt_idle, bgWt_exited, ehWt_noerr, ehWt_haserr, ehWt_hasperr, ehWt_exited, wt, ackWt, bphWt, St.bg, onOk, onErr, selNext, afterSetErr] <;> (try omega)
+    (try simp only [St.setDone, St.setBg, ↓reduceIte, Bool.false_eq_true, Bool.and_false, Bool.and_true, Bool.false_and, Bool.true_and]) <;> (repeat' split) <;> simp_all [tot_set_eq _ _ _ _ _ hi, bgWt_run, bgWt_idle, bgWt_exited, bgWt_parked, bgWt_afterCmd, ehWt_noerr, ehWt_haserr, ehWt_hasperr, ehWt_closing, ehWt_exited, wt, ackWt, bphWt, St.bg, onOk, onErr, selNext, afterSetErr] <;> (try omega)
   | crRelFail _ i hi =>
     have l1 := le_tot wt _ _ _ hi
-    (try simp only [St.setDone, St.setBg]) <;> (repeat' split) <;> simp_all [tot_set_eq _ _ _ _ _ hi, bgWt_run, bgWt_idle, bgWt_exited, ehWt_noerr, ehWt_haserr, ehWt_hasperr, ehWt_exited, wt, ackWt, bphWt, St.bg, onOk, onErr, selNext, afterSetErr] <;> (try omega)
+    (try simp only [St.setDone, St.setBg, ↓reduceIte, Bool.false_eq_true, Bool.and_false, Bool.and_true, Bool.false_and, Bool.true_and]) <;> (repeat' split) <;> simp_all [tot_set_eq _ _ _ _ _ hi, bgWt_run, bgWt_idle, bgWt_exited, bgWt_parked, bgWt_afterCmd, ehWt_noerr, ehWt_haserr, ehWt_hasperr, ehWt_closing, ehWt_exited, wt, ackWt, bphWt, St.bg, onOk, onErr, selNext, afterSetErr] <;> (try omega)
   | srSend _ i hi he =>
     have l1 := le_tot wt _ _ _ hi
-    rcases he with he | he <;> (try simp only [St.setDone, St.setBg]) <;> (repeat' split) <;> simp_all [tot_set_eq _ _ _ _ _ hi, bgWt_run, bgWt_idle, bgWt_exited, ehWt_noerr, ehWt_haserr, ehWt_hasperr, ehWt_exited, wt, ackWt, bphWt, St.bg, onOk, onErr, selNext, afterSetErr] <;> (try omega)
+    have l3 := ehWt_next cfg.m s.eh .readonly he
+    (repeat' split) <;> simp_all [tot_set_eq _ _ _ _ _ hi, bgWt_run, bgWt_idle, bgWt_exited, bgWt_parked, bgWt_afterCmd, ehWt_noerr, ehWt_haserr, ehWt_hasperr, ehWt_closing, ehWt_exited, wt, ackWt, bphWt, St.bg, onOk, onErr, selNext, afterSetErr] <;> (try omega)
   | srPerErr _ i hi he =>
     have l1 := le_tot wt _ _ _ hi
-    (try simp only [St.setDone, St.setBg]) <;> (repeat' split) <;> simp_all [tot_set_eq _ _ _ _ _ hi, bgWt_run, bgWt_idle, bgWt_exited, ehWt_noerr, ehWt_haserr, ehWt_hasperr, ehWt_exited, wt, ackWt, bphWt, St.bg, onOk, onErr, selNext, afterSetErr] <;> (try omega)
+    (try simp only [St.setDone, St.setBg, ↓reduceIte, Bool.false_eq_true, Bool.and_false, Bool.and_true, Bool.false_and, Bool.true_and]) <;> (repeat' split) <;> simp_all [tot_set_eq _ _ _ _ _ hi, bgWt_run, bgWt_idle, bgWt_exited, bgWt_parked, bgWt_afterCmd, ehWt_noerr, ehWt_haserr, ehWt_hasperr, ehWt_closing, ehWt_exited, wt, ackWt, bphWt, St.bg, onOk, onErr, selNext, afterSetErr] <;> (try omega)
   | srClosed _ i hi hc =>
     have l1 := le_tot wt _ _ _ hi
-    (try simp only [St.setDone, St.setBg]) <;> (repeat' split) <;> simp_all [tot_set_eq _ _ _ _ _ hi, bgWt_run, bgWt_idle, bgWt_exited, ehWt_noerr, ehWt_haserr, ehWt_hasperr, ehWt_exited, wt, ackWt, bphWt, St.bg, onOk, onErr, selNext, afterSetErr] <;> (try omega)
+    (try simp only [St.setDone, St.setBg, ↓reduceIte, Bool.false_eq_true, Bool.and_false, Bool.and_true, Bool.false_and, Bool.true_and]) <;> (repeat' split) <;> simp_all [tot_set_eq _ _ _ _ _ hi, bgWt_run, bgWt_idle, bgWt_exited, bgWt_parked, bgWt_afterCmd, ehWt_noerr, ehWt_haserr, ehWt_hasperr, ehWt_closing, ehWt_exited, wt, ackWt, bphWt, St.bg, onOk, onErr, selNext, afterSetErr] <;> (try omega)
   | clCheckTr _ i hi =>
     have l1 := le_tot wt _ _ _ hi
-    (try simp only [St.setDone, St.setBg]) <;> (repeat' split) <;> simp_all [tot_set_eq _ _ _ _ _ hi, bgWt_run, bgWt_idle, bgWt_exited, ehWt_noerr, ehWt_haserr, ehWt_hasperr, ehWt_exited, wt, ackWt, bphWt, St.bg, onOk, onErr, selNext, afterSetErr] <;> (try omega)
+    (try simp only [St.setDone, St.setBg, ↓reduceIte, Bool.false_eq_true, Bool.and_false, Bool.and_true, Bool.false_and, Bool.true_and]) <;> (repeat' split) <;> simp_all [tot_set_eq _ _ _ _ _ hi, bgWt_run, bgWt_idle, bgWt_exited, bgWt_parked, bgWt_afterCmd, ehWt_noerr, ehWt_haserr, ehWt_hasperr, ehWt_closing, ehWt_exited, wt, ackWt, bphWt, St.bg, onOk, onErr, selNext, afterSetErr] <;> (try omega)
   | clLockTr _ i hi hl =>
     have l1 := le_tot wt _ _ _ hi
-    (try simp only [St.setDone, St.setBg]) <;> (repeat' split) <;> simp_all [tot_set_eq _ _ _ _ _ hi, bgWt_run, bgWt_idle, bgWt_exited, ehWt_noerr, ehWt_haserr, ehWt_hasperr, ehWt_exited, wt, ackWt, bphWt, St.bg, onOk, onErr, selNext, afterSetErr] <;> (try omega)
+    (try simp only [St.setDone, St.setBg, ↓reduceIte, Bool.false_eq_true, Bool.and_false, Bool.and_true, Bool.false_and, Bool.true_and]) <;> (repeat' split) <;> simp_all [tot_set_eq _ _ _ _ _ hi, bgWt_run, bgWt_idle, bgWt_exited, bgWt_parked, bgWt_afterCmd, ehWt_noerr, ehWt_haserr, ehWt_hasperr, ehWt_closing, ehWt_exited, wt, ackWt, bphWt, St.bg, onOk, onErr, selNext, afterSetErr] <;> (try omega)
   | clBody _ i hi =>
     have l1 := le_tot wt _ _ _ hi
-    (try simp only [St.setDone, St.setBg]) <;> (repeat' split) <;> simp_all [tot_set_eq _ _ _ _ _ hi, bgWt_run, bgWt_idle, bgWt_exited, ehWt_noerr, ehWt_haserr, ehWt_hasperr, ehWt_exited, wt, ackWt, bphWt, St.bg, onOk, onErr, selNext, afterSetErr] <;> (try omega)
+    (try simp only [St.setDone, St.setBg, ↓reduceIte, Bool.false_eq_true, Bool.and_false, Bool.and_true, Bool.false_and, Bool.true_and]) <;> (repeat' split) <;> simp_all [tot_set_eq _ _ _ _ _ hi, bgWt_run, bgWt_idle, bgWt_exited, bgWt_parked, bgWt_afterCmd, ehWt_noerr, ehWt_haserr, ehWt_hasperr, ehWt_closing, ehWt_exited, wt, ackWt, bphWt, St.bg, onOk, onErr, selNext, afterSetErr] <;> (try omega)
   | clAcq _ i hi ht =>
     have l1 := le_tot wt _ _ _ hi
-    (try simp only [St.setDone, St.setBg]) <;> (repeat' split) <;> simp_all [tot_set_eq _ _ _ _ _ hi, bgWt_run, bgWt_idle, bgWt_exited, ehWt_noerr, ehWt_haserr, ehWt_hasperr, ehWt_exited, wt, ackWt, bphWt, St.bg, onOk, onErr, selNext, afterSetErr] <;> (try omega)
+    (try simp only [St.setDone, St.setBg, ↓reduceIte, Bool.false_eq_true, Bool.and_false, Bool.and_true, Bool.false_and, Bool.true_and]) <;> (repeat' split) <;> simp_all [tot_set_eq _ _ _ _ _ hi, bgWt_run, bgWt_idle, bgWt_exited, bgWt_parked, bgWt_afterCmd, ehWt_noerr, ehWt_haserr, ehWt_hasperr, ehWt_closing, ehWt_exited, wt, ackWt, bphWt, St.bg, onOk, onErr, selNext, afterSetErr] <;> (try omega)
   | clWait _ i hi hm ht =>
     have l1 := le_tot wt _ _ _ hi
-    (try simp only [St.setDone, St.setBg]) <;> (repeat' split) <;> simp_all [tot_set_eq _ _ _ _ _ hi, bgWt_run, bgWt_idle, bgWt_exited, ehWt_noerr, ehWt_haserr, ehWt_hasperr, ehWt_exited, wt, ackWt, bphWt, St.bg, onOk, onErr, selNext, afterSetErr] <;> (try omega)
-  | ehAcquire _ he ht hn =>
-    (try simp only [St.setDone, St.setBg]) <;> (repeat' split) <;> simp_all [bgWt_run, bgWt_idle, bgWt_exited, ehWt_noerr, ehWt_haserr, ehWt_hasperr, ehWt_exited, wt, ackWt, bphWt, St.bg, onOk, onErr, selNext, afterSetErr] <;> (try omega)
-  | ehExit _ he hc =>
-    cases he' : s.eh <;> (try simp only [St.setDone, St.setBg]) <;> (repeat' split) <;> simp_all [bgWt_run, bgWt_idle, bgWt_exited, ehWt_noerr, ehWt_haserr, ehWt_hasperr, ehWt_exited, wt, ackWt, bphWt, St.bg, onOk, onErr, selNext, afterSetErr] <;> (try omega)
+    (try simp only [St.setDone, St.setBg, ↓reduceIte, Bool.false_eq_true, Bool.and_false, Bool.and_true, Bool.false_and, Bool.true_and]) <;> (repeat' split) <;> simp_all [tot_set_eq _ _ _ _ _ hi, bgWt_run, bgWt_idle, bgWt_exited, bgWt_parked, bgWt_afterCmd, ehWt_noerr, ehWt_haserr, ehWt_hasperr, ehWt_closing, ehWt_exited, wt, ackWt, bphWt, St.bg, onOk, onErr, selNext, afterSetErr] <;> (try omega)
+  | ehAcquire _ he ht =>
+    (try simp only [St.setDone, St.setBg, ↓reduceIte, Bool.false_eq_true, Bool.and_false, Bool.and_true, Bool.false_and, Bool.true_and]) <;> (repeat' split) <;> simp_all [bgWt_run, bgWt_idle, bgWt_exited, bgWt_parked, bgWt_afterCmd, ehWt_noerr, ehWt_haserr, ehWt_hasperr, ehWt_closing, ehWt_exited, wt, ackWt, bphWt, St.bg, onOk, onErr, selNext, afterSetErr] <;> (try omega)
+  | ehClose _ he hc =>
+    have l3 := ehWt_onClose cfg.m s.eh s.cwl he
+    (repeat' split) <;> simp_all [bgWt_run, bgWt_idle, bgWt_exited, bgWt_parked, bgWt_afterCmd, ehWt_noerr, ehWt_haserr, ehWt_hasperr, ehWt_closing, ehWt_exited, wt, ackWt, bphWt, St.bg, onOk, onErr, selNext, afterSetErr] <;> (try omega)
+  | ehTake _ he ht =>
+    (try simp only [St.setDone, St.setBg, ↓reduceIte, Bool.false_eq_true, Bool.and_false, Bool.and_true, Bool.false_and, Bool.true_and]) <;> (repeat' split) <;> simp_all [bgWt_run, bgWt_idle, bgWt_exited, bgWt_parked, bgWt_afterCmd, ehWt_noerr, ehWt_haserr, ehWt_hasperr, ehWt_closing, ehWt_exited, wt, ackWt, bphWt, St.bg, onOk, onErr, selNext, afterSetErr] <;> (try omega)
   | bgExitIdle _ b hb hc =>
-    cases b <;> (try simp only [St.setDone, St.setBg]) <;> (repeat' split) <;> simp_all [bgWt_run, bgWt_idle, bgWt_exited, ehWt_noerr, ehWt_haserr, ehWt_hasperr, ehWt_exited, wt, ackWt, bphWt, St.bg, onOk, onErr, selNext, afterSetErr] <;> (try omega)
+    cases b <;> (try simp only [St.setDone, St.setBg, ↓reduceIte, Bool.false_eq_true, Bool.and_false, Bool.and_true, Bool.false_and, Bool.true_and]) <;> (repeat' split) <;> simp_all [bgWt_run, bgWt_idle, bgWt_exited, bgWt_parked, bgWt_afterCmd, ehWt_noerr, ehWt_haserr, ehWt_hasperr, ehWt_closing, ehWt_exited, wt, ackWt, bphWt, St.bg, onOk, onErr, selNext, afterSetErr] <;> (try omega)
+  | bgExitParked _ hb hc =>
+    (try simp only [St.setDone, St.setBg, ↓reduceIte, Bool.false_eq_true, Bool.and_false, Bool.and_true, Bool.false_and, Bool.true_and]) <;> (repeat' split) <;> simp_all [bgWt_run, bgWt_idle, bgWt_exited, bgWt_parked, bgWt_afterCmd, ehWt_noerr, ehWt_haserr, ehWt_hasperr, ehWt_closing, ehWt_exited, wt, ackWt, bphWt, St.bg, onOk, onErr, selNext, afterSetErr] <;> (try omega)
+  | bgSetErrCorrupt _ b w c hb he =>
+    have l3 := ehWt_next cfg.m s.eh .corrupt he
+    cases b <;> cases c <;> (try simp only [St.setDone, St.setBg, ↓reduceIte, Bool.false_eq_true, Bool.and_false, Bool.and_true, Bool.false_and, Bool.true_and]) <;> (repeat' split) <;> simp_all [bgWt_run, bgWt_idle, bgWt_exited, bgWt_parked, bgWt_afterCmd, ehWt_noerr, ehWt_haserr, ehWt_hasperr, ehWt_closing, ehWt_exited, wt, ackWt, bphWt, St.bg, onOk, onErr, selNext, afterSetErr] <;> (try omega)
   | bgWorkOk _ b w hb =>
-    cases b <;> (try simp only [St.setDone, St.setBg]) <;> (repeat' split) <;> simp_all [bgWt_run, bgWt_idle, bgWt_exited, ehWt_noerr, ehWt_haserr, ehWt_hasperr, ehWt_exited, wt, ackWt, bphWt, St.bg, onOk, onErr, selNext, afterSetErr] <;> (try omega)
+    cases b <;> (try simp only [St.setDone, St.setBg, ↓reduceIte, Bool.false_eq_true, Bool.and_false, Bool.and_true, Bool.false_and, Bool.true_and]) <;> (repeat' split) <;> simp_all [bgWt_run, bgWt_idle, bgWt_exited, bgWt_parked, bgWt_afterCmd, ehWt_noerr, ehWt_haserr, ehWt_hasperr, ehWt_closing, ehWt_exited, wt, ackWt, bphWt, St.bg, onOk, onErr, selNext, afterSetErr] <;> (try omega)
   | bgCommitOk _ b w hb =>
-    cases b <;> (try simp only [St.setDone, St.setBg]) <;> (repeat' split) <;> simp_all [bgWt_run, bgWt_idle, bgWt_exited, ehWt_noerr, ehWt_haserr, ehWt_hasperr, ehWt_exited, wt, ackWt, bphWt, St.bg, onOk, onErr, selNext, afterSetErr] <;> (try omega)
+    cases b <;> (try simp only [St.setDone, St.setBg, ↓reduceIte, Bool.false_eq_true, Bool.and_false, Bool.and_true, Bool.false_and, Bool.true_and]) <;> (repeat' split) <;> simp_all [bgWt_run, bgWt_idle, bgWt_exited, bgWt_parked, bgWt_afterCmd, ehWt_noerr, ehWt_haserr, ehWt_hasperr, ehWt_closing, ehWt_exited, wt, ackWt, bphWt, St.bg, onOk, onErr, selNext, afterSetErr] <;> (try omega)
   | bgSetErr _ b w ok c hb he =>
-    rcases he with he | he <;> cases b <;> cases ok <;> cases c <;> (try simp only [St.setDone, St.setBg]) <;> (repeat' split) <;> simp_all [bgWt_run, bgWt_idle, bgWt_exited, ehWt_noerr, ehWt_haserr, ehWt_hasperr, ehWt_exited, wt, ackWt, bphWt, St.bg, onOk, onErr, selNext, afterSetErr] <;> (try omega)
+    have l3 := ehWt_next cfg.m s.eh (if ok then .nil else .transient) he
+    cases b <;> cases ok <;> cases c <;> (try simp only [St.setDone, St.setBg, ↓reduceIte, Bool.false_eq_true, Bool.and_false, Bool.and_true, Bool.false_and, Bool.true_and]) <;> (repeat' split) <;> simp_all [bgWt_run, bgWt_idle, bgWt_exited, bgWt_parked, bgWt_afterCmd, ehWt_noerr, ehWt_haserr, ehWt_hasperr, ehWt_closing, ehWt_exited, wt, ackWt, bphWt, St.bg, onOk, onErr, selNext, afterSetErr] <;> (try omega)
   | bgSetErrPer _ b w c hb he =>
-    cases b <;> cases c <;> (try simp only [St.setDone, St.setBg]) <;> (repeat' split) <;> simp_all [bgWt_run, bgWt_idle, bgWt_exited, ehWt_noerr, ehWt_haserr, ehWt_hasperr, ehWt_exited, wt, ackWt, bphWt, St.bg, onOk, onErr, selNext, afterSetErr] <;> (try omega)
+    cases b <;> cases c <;> (try simp only [St.setDone, St.setBg, ↓reduceIte, Bool.false_eq_true, Bool.and_false, Bool.and_true, Bool.false_and, Bool.true_and]) <;> (repeat' split) <;> simp_all [bgWt_run, bgWt_idle, bgWt_exited, bgWt_parked, bgWt_afterCmd, ehWt_noerr, ehWt_haserr, ehWt_hasperr, ehWt_closing, ehWt_exited, wt, ackWt, bphWt, St.bg, onOk, onErr, selNext, afterSetErr] <;> (try omega)
   | bgBackoff _ b w c hb =>
-    cases b <;> cases c <;> (try simp only [St.setDone, St.setBg]) <;> (repeat' split) <;> simp_all [bgWt_run, bgWt_idle, bgWt_exited, ehWt_noerr, ehWt_haserr, ehWt_hasperr, ehWt_exited, wt, ackWt, bphWt, St.bg, onOk, onErr, selNext, afterSetErr] <;> (try omega)
+    cases b <;> cases c <;> (try simp only [St.setDone, St.setBg, ↓reduceIte, Bool.false_eq_true, Bool.and_false, Bool.and_true, Bool.false_and, Bool.true_and]) <;> (repeat' split) <;> simp_all [bgWt_run, bgWt_idle, bgWt_exited, bgWt_parked, bgWt_afterCmd, ehWt_noerr, ehWt_haserr, ehWt_hasperr, ehWt_closing, ehWt_exited, wt, ackWt, bphWt, St.bg, onOk, onErr, selNext, afterSetErr] <;> (try omega)
   | bgLockClk _ b w hb hl =>
-    cases b <;> (try simp only [St.setDone, St.setBg]) <;> (repeat' split) <;> simp_all [bgWt_run, bgWt_idle, bgWt_exited, ehWt_noerr, ehWt_haserr, ehWt_hasperr, ehWt_exited, wt, ackWt, bphWt, St.bg, onOk, onErr, selNext, afterSetErr] <;> (try omega)
+    cases b <;> (try simp only [St.setDone, St.setBg, ↓reduceIte, Bool.false_eq_true, Bool.and_false, Bool.and_true, Bool.false_and, Bool.true_and]) <;> (repeat' split) <;> simp_all [bgWt_run, bgWt_idle, bgWt_exited, bgWt_parked, bgWt_afterCmd, ehWt_noerr, ehWt_haserr, ehWt_hasperr, ehWt_closing, ehWt_exited, wt, ackWt, bphWt, St.bg, onOk, onErr, selNext, afterSetErr] <;> (try omega)
   | bgAck _ b w hb =>
     have l1 := tot_ackWs_wt s.ws w b
-    cases b <;> (try simp only [St.setDone, St.setBg]) <;> simp_all [bgWt_run, bgWt_idle, bgWt_exited, ehWt_noerr, ehWt_haserr, ehWt_hasperr, ehWt_exited, wt, ackWt, bphWt, St.bg, onOk, onErr, selNext, afterSetErr] <;> (try omega)
+    cases b <;> (try simp only [St.setDone, St.setBg]) <;> simp_all [bgWt_run, bgWt_idle, bgWt_exited, bgWt_parked, bgWt_afterCmd, ehWt_noerr, ehWt_haserr, ehWt_hasperr, ehWt_closing, ehWt_exited, wt, ackWt, bphWt, St.bg, onOk, onErr, selNext, afterSetErr] <;> (try omega)
   | bgExit _ b w ph hb hx =>
     have l0 := bphWt_pos ph
-    cases b <;> (try simp only [St.setDone, St.setBg]) <;> (repeat' split) <;> simp_all [bgWt_run, bgWt_idle, bgWt_exited, ehWt_noerr, ehWt_haserr, ehWt_hasperr, ehWt_exited, wt, ackWt, bphWt, St.bg, onOk, onErr, selNext, afterSetErr] <;> (try omega)
+    cases b <;> (try simp only [St.setDone, St.setBg, ↓reduceIte, Bool.false_eq_true, Bool.and_false, Bool.and_true, Bool.false_and, Bool.true_and]) <;> (repeat' split) <;> simp_all [bgWt_run, bgWt_idle, bgWt_exited, bgWt_parked, bgWt_afterCmd, ehWt_noerr, ehWt_haserr, ehWt_hasperr, ehWt_closing, ehWt_exited, wt, ackWt, bphWt, St.bg, onOk, onErr, selNext, afterSetErr] <;> (try omega)
 
 end GoLevel.Locks
